@@ -95,26 +95,33 @@ class MergeSuite(Suite):
                 results[(raw, scan, pep)] = (repr(float(r[1])), repr(float(r[3])))
         raws = {k[0] for k in results}
         from .merge_common import _case
-        exp = [[_case(c, case["ev_files"][0]["header_case"]) for c in EV_COLS]]
+        ident = list(range(len(EV_COLS)))
+        p0 = case["ev_files"][0].get("perm") or ident
+        exp = [[_case(EV_COLS[k], case["ev_files"][0]["header_case"]) for k in p0]]
+        where = []           # per expected data row: positions of score and PEP in that row's own layout
         for f in case["ev_files"]:
+            perm = f.get("perm") or ident
             for r in f["rows"]:
                 if not results or r[3] == "":
-                    exp.append(list(r))
+                    rr = list(r)
                 elif r[2] not in raws:
                     continue
                 else:
                     hit = results.get((r[2], int(r[3]), r[1][1:-1]))
-                    if hit:
-                        rr = list(r)
-                        rr[4], rr[5] = hit
-                        exp.append(rr)
+                    if not hit:
+                        continue
+                    rr = list(r)
+                    rr[4], rr[5] = hit
+                exp.append([rr[k] for k in perm])
+                where.append((perm.index(4), perm.index(5)))
         if exp != out["ok"]:
             if len(exp) != len(out["ok"]):
                 return "wrong-set-of-rows-written"
-            for a, b in zip(exp, out["ok"]):
+            for n, (a, b) in enumerate(zip(exp, out["ok"])):
                 if a != b:
                     diff = [i for i, (x, y) in enumerate(zip(a, b)) if x != y]
-                    return "field-other-than-score-and-pep-altered" if any(i not in (4, 5) for i in diff) else "wrong-score-or-pep-written"
+                    sp = where[n - 1] if n >= 1 else ()
+                    return "field-other-than-score-and-pep-altered" if any(i not in sp for i in diff) else "wrong-score-or-pep-written"
         return None
 
     def shrink(self, case):
